@@ -4,6 +4,15 @@ From KB Require Import Base.Cases Model.Coder Model.CompactSys Model.C07Cases Mo
   Proofs.Coder Proofs.CompactSafe Proofs.CompactWf Proofs.CompactPass Proofs.CompactExpiry Proofs.CompactRanges Proofs.CompactTtl Proofs.CompactScan Proofs.CompactExpirySafe Proofs.CompactValid Proofs.CompactValid17.
 Local Open Scope N_scope.
 
+(* NOTE on the only-events clause: the code's test is bytes.HasPrefix(key, EventsPrefix) with EventsPrefix =
+   append([]byte(prefix), "/events/"...) (util.go getEventsPrefix: plain concatenation, no trailing-slash handling), and
+   the model's is_expirable (events_prefix prefix) k and the specification's is_event_key prefix k both unfold to
+   has_prefix (prefix ++ "/events/") k: "only Event keys" is therefore true by construction of the model. Its content lies
+   in (a) C17_scanner_expiry_targets - nothing but the configured EventsPrefix test decides expiry, for ANY configured
+   prefix -, (b) the look-alike Example C17_ex_lookalike_survives and the driver's look-alike keys (/registry/pods/events/p1,
+   /registry/eventsx/a, /registry/events) on the real scanner and creator, (c) the constant "/events/" regenerated from
+   the Go source on every run (ConstChecks/C17.v). A configured prefix that itself ends in "/" yields "<prefix>//events/",
+   under which nothing is stored: nothing expires - outside the property, not exercised. *)
 (* C17_only_events + C17_not_young, scanner path, for every store, mark queue, wall time,
    fault placement and interleaving: with the scanner configured by the backend (EventsPrefix =
    <prefix>/events/), the timeout revision is 0 or the revision of a mark at least ttl old (and 0 on engines
@@ -226,6 +235,26 @@ Theorem C17_pass_removed : forall evp sup ttl now R lo hi q V0,
      ((expiry_target evp tr y \/ explained R V0 y = true) /\ in_range lo hi y = true)).
 Proof. exact pass_removed. Qed.
 Print Assumptions C17_pass_removed.
+
+(* `whole` under engine faults is eventual: a pass in which engine deletes fail (any outcomes) may leave an expired key half
+   removed - the index gone, a version still stored, the key still readable (C17_conditional_delete_needed); a later
+   fault-free pass whose timeout revision covers what is left removes it completely: the key reads absent and can be
+   created again. Reproduced on the real scanner (memkv and TiKV mock, c17 driver with VERIF_C17_FAULT=1: the delete of the
+   Event's version fails after its index was removed; the key reads present until the first pass that comes at least TTL
+   after the failing one - the pass in between has timeout revision 0, the old marks having been popped - and absent from
+   then on): a transient, not a finding *)
+Theorem C17_whole_eventually : forall evp R1 tr1 R2 tr2 lo hi V k (os : list outcome),
+  idx_unique V ->
+  tr2 <> 0 -> is_expirable evp k = true -> bleb lo k && bltb k hi = true ->
+  (forall x, In x V -> rkey x = k -> rec_rev x <= tr2) ->
+  let d1 := compact_range_e evp R1 tr1 lo hi (init_d V (map (fun o => ([], o)) os)) in
+  let d2 := compact_range_e evp R2 tr2 lo hi (init_d (d_store d1) []) in
+  (forall x, In x (d_store d1) -> In x V) /\
+  (forall x, In x (d_store d2) -> rkey x <> k) /\
+  get_at (d_store d2) max_rev k = None /\
+  forall v n, do_create (d_store d2) k v n = (d_store d2 ++ [RIdx k n false; RVer k n v], WOk).
+Proof. exact whole_eventually. Qed.
+Print Assumptions C17_whole_eventually.
 
 (* such a pass, judged by the oracle's pass_verdict (every missing record explained or an Event record not younger than a mark
    that is TTL old, an expired index gone with every version of its key - from the relaxed well-formedness: no version is
@@ -457,3 +486,14 @@ Proof.
   split; [apply store_okb_spec; vm_compute; reflexivity|]. split; [|vm_compute; split; reflexivity].
   rewrite app_nil_r. apply uniq_verb_spec. vm_compute. reflexivity.
 Qed.
+
+(* C17_whole_eventually on the example: the first pass removes the Event's index, its delete of the version fails (the key
+   still reads present); the second, fault-free, pass removes the version *)
+Example C17_ex_whole_eventually :
+  let lo := pfx ++ [47] in let hi := pfx ++ [48] in
+  let d1 := compact_range_e (events_prefix pfx) 9 7 lo hi (init_d exS2 (map (fun o => ([], o)) [OOk; OFailOther])) in
+  let d2 := compact_range_e (events_prefix pfx) 9 9 lo hi (init_d (d_store d1) []) in
+  filter (fun x => beqb (rkey x) k_event) (d_store d1) = [RVer k_event 5 [1]] /\
+  get_at (d_store d1) max_rev k_event = Some (5, [1]) /\
+  filter (fun x => beqb (rkey x) k_event) (d_store d2) = [] /\ get_at (d_store d2) max_rev k_event = None.
+Proof. vm_compute. repeat split. Qed.
